@@ -80,6 +80,50 @@ func (q Req) Build() *http.Request {
 		Proto: "HTTP/1.1", ProtoMajor: 1, ProtoMinor: 1, MultipartForm: q.Form}
 }
 
+// SlowRecorder is a client that downloads slowly: like net/http's response
+// writer it implements io.ReaderFrom, so io.Copy hands it the source and the
+// bytes are pulled from the object's reader only as the client takes them.
+// Started is raised when the body transfer begins; the first bytes are taken
+// only after Gate was raised (natively a short wait, symbolically one
+// scheduling point).
+type SlowRecorder struct {
+	*Recorder
+	Started, Gate *int32
+}
+
+func (s *SlowRecorder) ReadFrom(src io.Reader) (int64, error) {
+	if s.Started != nil {
+		vsym.SetFlag(s.Started)
+	}
+	if s.Gate != nil {
+		vsym.YieldUntil(s.Gate)
+	} else {
+		vsym.Yield()
+	}
+	var total int64
+	buf := make([]byte, 4)
+	for {
+		n, err := src.Read(buf)
+		if n > 0 {
+			s.Recorder.Write(buf[:n])
+			total += int64(n)
+		}
+		if err == io.EOF {
+			return total, nil
+		}
+		if err != nil {
+			return total, err
+		}
+	}
+}
+
+// DoSlow is Do with a slowly downloading client.
+func DoSlow(h http.Handler, q Req, started, gate *int32) *Recorder {
+	rec := NewRecorder()
+	h.ServeHTTP(&SlowRecorder{Recorder: rec, Started: started, Gate: gate}, q.Build())
+	return rec
+}
+
 // Do sends a request through handler h and returns the recorder.
 func Do(h http.Handler, q Req) *Recorder {
 	rec := NewRecorder()
